@@ -18,6 +18,7 @@ import (
 	"fmt"
 	"go/ast"
 	"go/constant"
+	"go/token"
 	"go/types"
 	"sort"
 	"strings"
@@ -90,9 +91,10 @@ func runReceive(p *Prog, version, max *int64) ([]recvPath, int) {
 		}
 		return nil
 	}
+	dispatch := clientDispatchFn(p)
 	s.OnBranch = func(st *State, cond ssa.Value, truth bool) {
 		if ex, ok := cond.(*ssa.Extract); ok {
-			if ta, ok := ex.Tuple.(*ssa.TypeAssert); ok && ta.Parent() == fn {
+			if ta, ok := ex.Tuple.(*ssa.TypeAssert); ok && ta.Parent() == dispatch {
 				if truth {
 					st.aux["arm"] = shortType(ta.AssertedType)
 				} else {
@@ -176,6 +178,7 @@ func checkC13(p *Prog, r *Report) {
 	c13Codec(p, r, cl, recv)
 	c13Names(p, r)
 	c13LookupKeys(p, r)
+	c13ReplyFlags(p, r)
 	// a locally built answer gets a header of its own (flags of the request must not leak into it)
 	r.borrow("C03", "C13", func() { c03FrameWrites(p, r) })
 }
@@ -499,17 +502,26 @@ func c13Names(p *Prog, r *Report) {
 	recv := p.methodOf(cl, "Receive")
 	uses := false
 	g := p.Global("codecs", "CompressionNames")
-	eachInstr(recv, func(in ssa.Instruction) {
-		if mu, ok := in.(*ssa.MapUpdate); ok {
-			if k, ok := constStr(mu.Key); ok && k == "COMPRESSION" {
-				for _, o := range origins(mu.Value) {
-					if ld, ok := o.(*ssa.UnOp); ok && sameGlobal(ld.X, g) {
-						uses = true
+	// in the frame handler or one of its private helpers (the arm may have a method of its own)
+	var fam []*ssa.Function
+	for _, f := range withCallees(p, recv, 3) {
+		if f == recv || (recvNamed(rootFn(f)) == cl && onlyCalledFrom(p, rootFn(f), recv, 3)) {
+			fam = append(fam, f)
+		}
+	}
+	for _, f := range fam {
+		eachInstr(f, func(in ssa.Instruction) {
+			if mu, ok := in.(*ssa.MapUpdate); ok {
+				if k, ok := constStr(mu.Key); ok && k == "COMPRESSION" {
+					for _, o := range origins(mu.Value) {
+						if ld, ok := o.(*ssa.UnOp); ok && sameGlobal(ld.X, g) {
+							uses = true
+						}
 					}
 				}
 			}
-		}
-	})
+		})
+	}
 	r.check(uses, rule, "SUPPORTED.COMPRESSION", p.Pos(recv.Pos()), "", "SUPPORTED does not advertise codecs.CompressionNames under COMPRESSION")
 }
 
@@ -590,4 +602,108 @@ func returnedLiteral(p *Prog, info *types.Info, call *ast.CallExpr) *ast.Composi
 		}
 	}
 	return nil
+}
+
+// c13ReplyFlags: a reply the proxy builds itself (version refusal, SUPPORTED, READY, errors, rows
+// of the virtual tables) is encoded with the codec of the connection, which has a compressor only
+// after a successful STARTUP.  Header flags of such a frame (compression, tracing, ...) therefore
+// must not be copied from the flags of the request: those are whatever the peer chose to send,
+// before any negotiation, and a frame flagged "compressed" cannot be encoded without a compressor
+// (the writer fails and the connection drops instead of the documented answer).
+func c13ReplyFlags(p *Prog, r *Report) {
+	const rule = "C13.reply-flags"
+	r.Rule(rule, "the header flags of a locally built reply frame are not derived from the header flags of the request frame (a refused or pre-STARTUP frame may carry any flags; the reply must be encodable without a negotiated compressor)")
+	flagsF := p.Field("frame", "Header", "Flags")
+	var tainted func(v ssa.Value, depth int, seen map[ssa.Value]bool) bool
+	tainted = func(v ssa.Value, depth int, seen map[ssa.Value]bool) bool {
+		if v == nil || depth > 8 || seen[v] {
+			return false
+		}
+		seen[v] = true
+		switch x := v.(type) {
+		case *ssa.UnOp:
+			if fa, ok := x.X.(*ssa.FieldAddr); ok && x.Op == token.MUL && fieldOfAddr(fa) == flagsF {
+				return true
+			}
+		case *ssa.Field:
+			if fieldOfVal(x) == flagsF {
+				return true
+			}
+		}
+		if in, ok := v.(ssa.Instruction); ok {
+			for _, op := range in.Operands(nil) {
+				if *op != nil && tainted(*op, depth+1, seen) {
+					return true
+				}
+			}
+		}
+		return false
+	}
+	n := 0
+	var bad []string
+	for _, fn := range p.ScopedFuncs("proxy") {
+		eachCall(fn, func(c ssa.CallInstruction) {
+			sc := c.Common().StaticCallee()
+			if sc == nil || sc.Pkg == nil || !strings.HasSuffix(sc.Pkg.Pkg.Path(), "/frame") || sc.Name() != "NewFrame" {
+				return
+			}
+			frm, ok := c.(ssa.Value)
+			if !ok {
+				return
+			}
+			n++
+			// every use of the new frame (directly or through the local it is kept in)
+			uses := append([]ssa.Instruction(nil), *frm.Referrers()...)
+			for _, u := range *frm.Referrers() {
+				if st, ok := u.(*ssa.Store); ok && st.Val == frm {
+					if al, ok := st.Addr.(*ssa.Alloc); ok {
+						for _, ar := range *al.Referrers() {
+							if ld, ok := ar.(*ssa.UnOp); ok && ld.Op == token.MUL {
+								uses = append(uses, *ld.Referrers()...)
+							}
+						}
+					}
+				}
+			}
+			for _, u := range uses {
+				switch x := u.(type) {
+				case ssa.CallInstruction:
+					cm := x.Common()
+					callee := cm.StaticCallee()
+					if callee == nil || callee.Signature.Recv() == nil || len(cm.Args) < 2 || namedOf(callee.Signature.Recv().Type()) == nil || namedOf(callee.Signature.Recv().Type()).Obj().Name() != "Frame" {
+						continue
+					}
+					for _, a := range cm.Args[1:] {
+						if tainted(a, 0, map[ssa.Value]bool{}) {
+							bad = append(bad, fmt.Sprintf("%s: %s sets a header property of a locally built reply (%s) from the flags of the request frame: a frame that is refused, or arrives before STARTUP, can carry any flags, and a reply flagged accordingly cannot be encoded by a connection without a compressor", p.Pos(x.Pos()), fn.String(), callee.Name()))
+						}
+					}
+				case *ssa.FieldAddr:
+					// frm.Header -> stores into its fields
+					for _, hr := range *x.Referrers() {
+						ld, ok := hr.(*ssa.UnOp)
+						if !ok {
+							continue
+						}
+						for _, hu := range *ld.Referrers() {
+							fa, ok := hu.(*ssa.FieldAddr)
+							if !ok {
+								continue
+							}
+							for _, fu := range *fa.Referrers() {
+								if st, ok := fu.(*ssa.Store); ok && st.Addr == ssa.Value(fa) && tainted(st.Val, 0, map[ssa.Value]bool{}) {
+									bad = append(bad, fmt.Sprintf("%s: %s stores into the header of a locally built reply a value derived from the flags of the request frame", p.Pos(st.Pos()), fn.String()))
+								}
+							}
+						}
+					}
+				}
+			}
+		})
+	}
+	r.count("local_reply_frames", n)
+	if n == 0 {
+		fatalf("anchor: no locally built reply frame (frame.NewFrame) found in package proxy")
+	}
+	r.check(len(bad) == 0, rule, "locally built reply frames", "", fmt.Sprintf("%d frame.NewFrame sites in package proxy", n), strings.Join(dedupe(bad), " || "))
 }
